@@ -99,13 +99,14 @@ type gen struct {
 	byPath   map[string]string // import path suffix -> package name
 	dbWrites map[string]string // DB method -> "pebbleMethod:option"
 	dbAll    map[string]bool
+	batchOps map[string][]string // db.Batch method -> pebble.Batch methods it calls on b.inner
 }
 
 func main() {
 	repo := flag.String("repo", "/repo", "repository root")
 	out := flag.String("out", "", "output Lean file")
 	flag.Parse()
-	g := &gen{repo: *repo, pkgs: map[string]*pkg{}, byPath: map[string]string{}, dbWrites: map[string]string{}, dbAll: map[string]bool{}}
+	g := &gen{repo: *repo, pkgs: map[string]*pkg{}, byPath: map[string]string{}, dbWrites: map[string]string{}, dbAll: map[string]bool{}, batchOps: map[string][]string{}}
 	if err := g.run(*out); err != nil {
 		fmt.Fprintln(os.Stderr, "wskelgen:", err)
 		os.Exit(1)
@@ -288,6 +289,36 @@ func (g *gen) scanDB() error {
 			rt := fd.Recv.List[0].Type
 			if s, ok := rt.(*ast.StarExpr); ok {
 				rt = s.X
+			}
+			if id, ok := rt.(*ast.Ident); ok && id.Name == "Batch" {
+				// methods of db.Batch: which pebble.Batch methods they call (staging only: Set / Delete; a Commit or
+				// Apply here would make a batch durable in pieces)
+				name := fd.Name.Name
+				g.batchOps[name] = []string{}
+				seen := map[string]bool{}
+				ast.Inspect(fd.Body, func(n ast.Node) bool {
+					c, ok := n.(*ast.CallExpr)
+					if !ok {
+						return true
+					}
+					s, ok := c.Fun.(*ast.SelectorExpr)
+					if !ok {
+						return true
+					}
+					callee := ""
+					if in, ok := s.X.(*ast.SelectorExpr); ok && in.Sel.Name == "inner" {
+						callee = s.Sel.Name
+					} else if id, ok := s.X.(*ast.Ident); ok && fd.Recv.List[0].Names != nil && len(fd.Recv.List[0].Names) == 1 && id.Name == fd.Recv.List[0].Names[0].Name {
+						callee = "self." + s.Sel.Name // a call of another Batch method / field function
+					}
+					if callee != "" && !seen[callee] {
+						seen[callee] = true
+						g.batchOps[name] = append(g.batchOps[name], callee)
+					}
+					return true
+				})
+				sort.Strings(g.batchOps[name])
+				continue
 			}
 			if id, ok := rt.(*ast.Ident); !ok || id.Name != "DB" {
 				continue
@@ -1313,6 +1344,20 @@ func (g *gen) run(out string) error {
 		dms = append(dms, fmt.Sprintf("(%q, %q)", m, g.dbWrites[m]))
 	}
 	sb.WriteString("/-- methods of db.DB (pkg/db/db.go) that call a mutating pebble method: (method, pebbleMethod:writeOption) -/\ndef dbWriteMethods : List (String × String) := [" + strings.Join(dms, ", ") + "]\n\n")
+	var bm []string
+	for m := range g.batchOps {
+		bm = append(bm, m)
+	}
+	sort.Strings(bm)
+	var bms []string
+	for _, m := range bm {
+		var qs []string
+		for _, c := range g.batchOps[m] {
+			qs = append(qs, fmt.Sprintf("%q", c))
+		}
+		bms = append(bms, fmt.Sprintf("(%q, [%s])", m, strings.Join(qs, ", ")))
+	}
+	sb.WriteString("/-- methods of db.Batch (pkg/db) and the pebble.Batch methods (or own methods, `self.`) each calls -/\ndef batchMethods : List (String × List String) := [" + strings.Join(bms, ", ") + "]\n\n")
 	sb.WriteString("end LiskVerif.Gen.WS\n")
 	if out == "" {
 		fmt.Print(sb.String())
